@@ -45,6 +45,9 @@ const (
 	KSetLen     = "C16-SLICE-SETLEN-PANIC"
 	KDeleteFat  = "C16-DELETE-FATAL"
 	KStructVal  = "C16-STRUCT-VALUE-SET-PANIC"
+	KF32Reflect = "C16-FLOAT32-REFLECT-VALUE"
+	KNullToAny  = "C16-STORE-NULL-INTO-INTERFACE"
+	KShadow     = "C16-STRUCT-SHADOW-PROPERTY"
 )
 
 func impossible(class string, known ...string) Den {
@@ -108,7 +111,11 @@ func Denote(v JV, t reflect.Type, path string) Den {
 	named := t.PkgPath() != "" && k != reflect.Struct // MyInt, MyStr, … (non-struct named types)
 
 	if v.IsGo() {
-		return denoteGo(v, t)
+		d := denoteGo(v, t)
+		if named && path == "call" && (k == reflect.String || k == reflect.Bool) {
+			d.Known = append(d.Known, KNamedType)
+		}
+		return d
 	}
 
 	switch {
@@ -119,7 +126,11 @@ func Denote(v JV, t reflect.Type, path string) Den {
 			}
 			return anyDen("to-nonempty-interface")
 		}
-		return denoteAny(v)
+		d := denoteAny(v)
+		if path == "store" && (v.K == "null" || v.K == "undef") {
+			d.Known = append(d.Known, KNullToAny)
+		}
+		return d
 
 	case k == reflect.Bool:
 		d := Den{St: Exact, V: Bool(v.ToBoolean()), MayFail: v.K != "bool", Class: "to-bool:" + v.K, Hard: v.K != "bool"}
@@ -164,6 +175,9 @@ func Denote(v JV, t reflect.Type, path string) Den {
 				d.St, d.V = Exact, g
 				if !IsFloat(k) && math.Abs(x) > 9007199254740992 {
 					d.MayFail = true // beyond 2^53 a loud refusal is tolerated (positive list: |x| <= 2^53)
+				}
+				if k == reflect.Float32 && math.IsInf(x, 0) {
+					d.MayFail = true // refusing an infinity for float32 is loud, hence tolerated
 				}
 				d.Hard = !(x == math.Trunc(x) && math.Abs(x) < 1000 && !(x == 0 && math.Signbit(x)))
 			} else {
@@ -267,8 +281,8 @@ func denoteAny(v JV) Den {
 				return anyDen("any:arr-with-hole") // Export() of sparse arrays belongs to C15
 			}
 			ed := denoteAny(e)
-			if ed.St != Exact {
-				return anyDen("any:arr-of-unmodelled")
+			if ed.St != Exact || e.K == "undef" {
+				return anyDen("any:arr-of-unmodelled") // undefined inside an exported container: Export() belongs to C15
 			}
 			g.Elems = append(g.Elems, ed.V)
 		}
@@ -278,7 +292,7 @@ func denoteAny(v JV) Den {
 		var vals []GV
 		for _, e := range v.E {
 			ed := denoteAny(e)
-			if ed.St != Exact {
+			if ed.St != Exact || e.K == "undef" {
 				return anyDen("any:obj-of-unmodelled")
 			}
 			vals = append(vals, ed.V)
